@@ -127,6 +127,7 @@ type VC struct {
 	callCount   map[string]int
 	defers      []*ssa.Defer
 	deferReach  map[*ssa.Defer]string
+	closArgs    []*closureInfo // closures passed as arguments of the call being executed (see applySpec)
 	curBlock    *ssa.BasicBlock
 	curState    *State
 	results     []string // at return being processed
@@ -998,6 +999,11 @@ func (vc *VC) run() (err error) {
 		env.flushSide("")
 		vc.assume(f)
 		_ = i
+	}
+	for _, c := range vc.spec.Preserves {
+		f := env.evalBool(c.E)
+		env.flushSide("")
+		vc.assume(f)
 	}
 	for _, c := range vc.spec.Captures {
 		// proved where the closure is created (obligation closure.captures in the creating function), and stable:
